@@ -805,6 +805,9 @@ def run(model, col, tier):
         families.append(("paren-left", ["(", "ID", o1, "ID", ")", o2, "ID"]))
         families.append(("paren-right", ["ID", o1, "(", "ID", o2, "ID", ")"]))
         families.append(("assign", ["ID", "EQUALS", "ID", o1, "ID", o2, "ID"]))
+        # an assignment as the right operand of a binary operator: its target is the operand next to `=`, the operator to the
+        # left of it does not reach into the assignment
+        families.append(("assign-operand", ["ID", o1, "ID", "EQUALS", "ID", o2, "ID"]))
     for o1, o2, o3 in itertools.product(B, repeat=3):
         families.append(("triple", ["ID", o1, "ID", o2, "ID", o3, "ID"]))
     if tier == "thorough":
@@ -825,7 +828,14 @@ def run(model, col, tier):
         except ParseError as e:
             got = None
             err = str(e)
-        want = oracle_tree(sent, spell_of)
+        if fam == "assign-operand":
+            want = ("bin", spell_of[sent[1]], ("leaf", 1), ("assign", ("leaf", 2), ("bin", spell_of[sent[5]], ("leaf", 3), ("leaf", 4))))
+            if got is None:
+                # the sentence is rejected: no grouping to disagree with
+                col.ok("R08.4", f"sentence[{fam}] {text}", "not a sentence of the grammar")
+                continue
+        else:
+            want = oracle_tree(sent, spell_of)
         if got == want:
             col.ok("R08.4", f"sentence[{fam}] {text}", f"parsed as {show(got)}")
         else:
